@@ -62,7 +62,10 @@ LEVEL = "exploration"
 NATIVE = ["mdtraj.geometry.neighbors", "mdtraj.geometry.neighborlist", "mdtraj.geometry._geometry"]
 RULE = ("cases = (entry point, cell class or no-cell or periodic=False, placement class, cutoff mode, atom count, "
         "query/haystack subsets) from a seeded stream; a case is non-trivial when at least one pair/atom was decided "
-        "against both references (compute_distances and the float64 minimum image); distinct = distinct descriptors")
+        "against both references (compute_distances and the float64 minimum image); distinct = distinct descriptors; "
+        "a second stream (w=1) varies argument containers and scalar types, the origin of the Trajectory object, per-frame "
+        "cell patterns over up to 260 frames, cell scale, atom counts at SIMD widths, atoms +-50 cells away, call histories "
+        "on one object, and sweeps OpenMP team sizes for compute_neighbors with more than 65536 query x haystack pairs")
 WORKERS = {"quick": 8, "thorough": 16}
 BUDGET = {"quick": 90, "thorough": 900}
 ENV = {"OMP_WAIT_POLICY": "PASSIVE"}
@@ -564,8 +567,10 @@ def _set_threads(n):
 
 def _run_nl(case, ctx, threads):
     import mdtraj as md
-    t, B, cutoff, periodic, periodic_flag, rng = _build(case)
+    t, B, cutoff, periodic, periodic_flag, rng = (_build_wide if case.get("w") else _build)(case)
     f = int(rng.integers(0, t.n_frames))
+    if case.get("w") and t.n_frames > 100 and rng.random() < 0.6:
+        f = int(rng.choice([t.n_frames - 1, 100, 127, 128, 129]))
     Bf = B[f] if B is not None else None
     ctx.observe("entry", "compute_neighborlist" + ("+thread-sweep" if threads else ""))
     ctx.observe("cell", case["cell"])
@@ -579,8 +584,10 @@ def _run_nl(case, ctx, threads):
             ctx.skip("neighborlist.pairs", "cutoff exceeds half the smallest cell width (outside the stated domain)")
             return
     label = f"compute_neighborlist(frame={f}, periodic={periodic_flag}) [{case['cell']}, {case['place']}]"
-    nl = md.compute_neighborlist(t, cutoff, frame=f, periodic=periodic_flag)
+    nl = md.compute_neighborlist(t, _cut_arg(cutoff, case), frame=_frame_arg(f, case), periodic=_pflag_arg(periodic_flag, case))
     _judge_nl(ctx, md, t, f, Bf, cutoff, periodic, periodic_flag, nl, rng, label)
+    if case.get("w") and isinstance(nl, list) and len(nl) == t.n_atoms:
+        _nl_history(case, ctx, md, t, B, f, cutoff, periodic, periodic_flag, nl, rng, label)
     if threads and isinstance(nl, list) and len(nl) == t.n_atoms:
         base = [np.sort(np.asarray(a)) for a in nl]
         try:
@@ -635,9 +642,11 @@ def _subsets(rng, na):
 
 def _run_nb(case, ctx):
     import mdtraj as md
-    t, B, cutoff, periodic, periodic_flag, rng = _build(case)
+    t, B, cutoff, periodic, periodic_flag, rng = (_build_wide if case.get("w") else _build)(case)
     na, nf = t.n_atoms, t.n_frames
     q, h = _subsets(rng, na)
+    if case.get("w"):
+        q, h = _subsets_wide(rng, na, q, h, case, ctx)
     ctx.observe("entry", "compute_neighbors")
     ctx.observe("cell", case["cell"])
     ctx.observe("place", case["place"])
@@ -652,7 +661,11 @@ def _run_nb(case, ctx):
             ctx.skip("neighbors.members", "cutoff exceeds half the smallest cell width (outside the stated domain)")
             return
     label = f"compute_neighbors(periodic={periodic_flag}, haystack={'None' if h is None else 'given'}) [{case['cell']}, {case['place']}]"
-    res = md.compute_neighbors(t, cutoff, q, haystack_indices=h, periodic=periodic_flag)
+    if case.get("w"):
+        res = md.compute_neighbors(t, _cut_arg(cutoff, case), common.index_arg(q, case["idx"]),
+                                   haystack_indices=None if h is None else common.index_arg(h, case["hidx"]), periodic=_pflag_arg(periodic_flag, case))
+    else:
+        res = md.compute_neighbors(t, cutoff, q, haystack_indices=h, periodic=periodic_flag)
     H = np.arange(na, dtype=np.int64) if h is None else h
     if not isinstance(res, list) or len(res) != nf:
         ctx.violation("neighbors.structure", "neighbors:length", f"{label}: {len(res)} results for {nf} frames")
@@ -737,7 +750,285 @@ def _run_nb(case, ctx):
 
 
 def run_case(case, ctx):
-    if case["kind"] == "nb":
+    if case["kind"] == "nbt":
+        _run_nbt(case, ctx)
+    elif case["kind"] == "nb":
         _run_nb(case, ctx)
     else:
         _run_nl(case, ctx, threads=case["kind"] == "nlt")
+
+
+# =====================================================================================================================
+# Widening pass (appended stream; the cases above keep their numbers and seeds).  Same two references, same band.
+#   arguments    query / haystack tables as int32 / list / tuple / strided or offset view / int16, independently of each
+#                other; haystack descending; query = every atom; cutoff as np.float32 / np.float64 / 0-d array; frame as
+#                numpy integer; periodic as np.True_ / 1 / np.False_ / 0
+#   trajectory   cut out of a longer one (copy or view), every other frame, atom subset, joined, float64 coordinates,
+#                cell assigned as vectors; 130 / 260 frames (compute_neighbors judged in every frame; the neighbour list
+#                on frames 100..129 and the last one); per-frame cells where one field drifts / the class changes / only
+#                the last frames differ / two cells alternate
+#   geometry     atom counts 1..9, 15..17, 31..33, 63..65; atoms +-50 cells away; cells of 0.05 nm and of 700 nm
+#   history      neighbour list of frame f, of another frame, of frame f again (identical); then the atoms of frame f are
+#                moved in place (lattice vectors / small displacement) and the list is judged again on the edited frame
+#   nbt          compute_neighbors with n_query x n_haystack > 65536 under OpenMP teams 1,2,3,5,8,16: identical arrays
+WIDE_N = {"quick": 520, "thorough": 6000}
+WIDE_KINDS = ["nb", "nl", "nb", "nl", "nb", "nbt", "nl", "nb"]
+CUT_TYPES = ["float", "float", "np.float32", "np.float64", "0d-array"]
+FLOORS["quick"].update({"neighbors.threads": 20, "neighborlist.repeat": 60})
+
+
+def _gen_wide(tier, seed):
+    n0 = NCASES[tier]
+    for k in range(WIDE_N[tier]):
+        i = n0 + k
+        rng = common.rng_for("C10w", seed, i)
+        kind = WIDE_KINDS[int(rng.integers(len(WIDE_KINDS)))]
+        cell = CELLS[int(rng.integers(len(CELLS)))]
+        scale = int(rng.choice([0, 0, 0, 0, -5, 7]))
+        long_ = rng.random() < 0.08
+        r = rng.random()
+        natoms = int(rng.choice(common.SIMD_COUNTS)) if r < 0.45 else (int(rng.integers(4, 120)) if r < 0.9 else int(rng.integers(120, 700)))
+        c = dict(i=i, seed=common.case_seed(seed, "C10", i), kind=kind, w=1, cell=cell,
+                 place=str(rng.choice(PLACES + ["shift50", "cell", "faces"])),
+                 cutmode=str(rng.choice([m for m in CUTMODES if not (scale and m == "tiny")])),
+                 n_atoms=natoms, n_frames=int(rng.choice([130, 260])) if long_ else int(rng.integers(1, 6)),
+                 perframe=True, pf=str(rng.choice(["const", "const"] + common.PF_MODES)), scale_log2=scale,
+                 derived=str(rng.choice(common.DERIVED)) if not long_ else str(rng.choice(["none", "stride-nocopy", "join", "slice-nocopy"])),
+                 idx=str(rng.choice(common.INDEX_STYLES)), hidx=str(rng.choice(common.INDEX_STYLES)),
+                 hmode=str(rng.choice(["asis", "asis", "desc", "all-query", "query-is-haystack-reversed"])),
+                 cut_type=str(rng.choice(CUT_TYPES)), ptrue=int(rng.integers(3)), pfalse=int(rng.integers(3)),
+                 frame_type=str(rng.choice(["int", "np.int64", "np.int32"])))
+        if long_:
+            c["n_atoms"] = min(c["n_atoms"], 40)
+        if kind == "nbt":
+            c.update(n_atoms=int(rng.integers(520, 1100)), n_frames=int(rng.integers(1, 3)), derived="none", cutmode=str(rng.choice(["frac", "big", "half"])))
+        yield c
+
+
+def gen_cases(tier, seed):  # noqa: F811
+    import itertools
+    return common.with_asan_slice(itertools.chain(_gen_cases(tier, seed), _gen_wide(tier, seed)), ASAN_EVERY[tier])
+
+
+def _cut_arg(cutoff, case):
+    ct = case.get("cut_type", "float")
+    if ct == "np.float32":
+        return np.float32(cutoff)
+    if ct == "np.float64":
+        return np.float64(cutoff)
+    if ct == "0d-array":
+        return np.array(cutoff)
+    return cutoff
+
+
+def _frame_arg(f, case):
+    ft = case.get("frame_type", "int")
+    return np.int64(f) if ft == "np.int64" else (np.int32(f) if ft == "np.int32" else f)
+
+
+def _pflag_arg(flag, case):
+    if not case.get("w"):
+        return flag
+    return [True, np.True_, 1][case["ptrue"]] if flag else [False, np.False_, 0][case["pfalse"]]
+
+
+def _build_wide(case):
+    """_build with per-frame cell patterns, a cell scale, far-away atoms and a derived Trajectory object"""
+    import mdtraj as md
+    rng = common.rng_for("C10wide", case["seed"])
+    nf, na = case["n_frames"], case["n_atoms"]
+    cellkind = case["cell"]
+    has_cell = cellkind != "none"
+    periodic_flag = cellkind != "nonperiodic"
+    top = common.simple_topology(na)
+    sc = 2.0 ** case["scale_log2"]
+    if has_cell:
+        kind = None if cellkind == "nonperiodic" else cellkind
+        if case["pf"] == "const":
+            cells = [common.random_cell(rng, kind)] * nf
+        else:
+            cells = common.perframe_cells(rng, kind, nf, case["pf"], (lambda: common.random_cell(rng, kind)))
+        L = (np.array([c[0] for c in cells]) * sc).astype(np.float32)
+        A = np.array([c[1] for c in cells], dtype=np.float32)
+        t = md.Trajectory(np.zeros((nf, na, 3), np.float32), top, unitcell_lengths=L, unitcell_angles=A)
+        B = t.unitcell_vectors.astype(np.float64)
+        wmin = min(common.cell_widths(B[f]).min() for f in range(nf))
+        scale = float(wmin)
+    else:
+        t = md.Trajectory(np.zeros((nf, na, 3), np.float32), top)
+        B = None
+        scale = float(rng.uniform(1.5, 6.0)) * sc
+        wmin = scale
+    periodic = has_cell and periodic_flag
+    mode = case["cutmode"]
+    half = wmin / 2
+    if mode == "tiny":
+        cutoff = 1e-3 * float(rng.choice([1, 3, 10, 30]))
+    elif mode == "frac":
+        cutoff = half * float(rng.uniform(0.02, 1.0))
+    elif mode == "big":
+        cutoff = half * float(rng.uniform(0.6, 1.0))
+    elif mode == "half":
+        cutoff = half if rng.random() < 0.5 else half * (1 - 1e-6)
+    elif mode == "third":
+        cutoff = wmin / 3 * float(rng.uniform(0.97, 1.03))
+    elif mode in ("thirdyz", "thirdz"):
+        if has_cell:
+            Br = reduce_like_openmm(B[int(rng.integers(nf))])
+            ax = int(rng.integers(1, 3)) if mode == "thirdyz" else 2
+            cutoff = min(half, float(Br[ax, ax]) / 3 * float(rng.uniform(0.78, 1.45)))
+        else:
+            cutoff = wmin / 3 * float(rng.uniform(0.78, 1.45))
+    else:
+        cutoff = half * float(rng.uniform(1.02, 2.5))
+    if case["kind"] not in ("nb", "nbt"):
+        if has_cell:
+            ey, ez = float(B[:, 1, 1].max()), float(B[:, 2, 2].max())
+        else:
+            ey = ez = scale
+        if not periodic and case["place"] == "shift50":
+            # without periodicity the voxel grid spans the coordinate range: atoms scattered over +-50 box lengths
+            ey, ez = 101.0 * ey, 101.0 * ez
+        cutoff = max(cutoff, float(np.sqrt(ey * ez / (0.36 * MAXBINS))))
+    cutoff = float(cutoff)
+    xyz = np.zeros((nf, na, 3))
+    place = case["place"]
+    for f in range(nf):
+        Bf = B[f] if has_cell else None
+        if place == "shift50":
+            pos = _place(rng, "cell", na, Bf, cutoff, scale)
+            pos = pos + (rng.integers(-50, 51, (na, 3)).astype(np.float64) @ Bf if has_cell else rng.integers(-50, 51, (na, 3)) * scale)
+        else:
+            pos = _place(rng, place, na, Bf, cutoff, scale)
+            if Bf is None and place == "shift5":
+                pos = pos + 40.0 * (sc - 1.0)
+        xyz[f] = pos
+    t.xyz = xyz.astype(np.float32)
+    t = common.derive_traj(t, case["derived"], rng)
+    if has_cell:
+        B = t.unitcell_vectors.astype(np.float64)
+    return t, (B if periodic else None), cutoff, periodic, periodic_flag, rng
+
+
+def _observe_wide(case, ctx, t):
+    ctx.observe("wide.trajectory_origin", case["derived"])
+    ctx.observe("wide.per_frame_cells", case["pf"])
+    ctx.observe("wide.cell_scale", f"2^{case['scale_log2']}")
+    ctx.observe("wide.cutoff_type", case["cut_type"])
+    ctx.observe("wide.n_atoms", t.n_atoms if t.n_atoms in common.SIMD_COUNTS else "other")
+    ctx.observe("wide.n_frames", "1" if t.n_frames == 1 else ("2-5" if t.n_frames <= 5 else ">=130"))
+    ctx.observe("wide.periodic_flag", repr([True, np.True_, 1][case["ptrue"]]) + "/" + repr([False, np.False_, 0][case["pfalse"]]))
+
+
+def _subsets_wide(rng, na, q, h, case, ctx):
+    hm = case["hmode"]
+    if hm == "desc" and h is not None and len(h):
+        h = np.sort(h)[::-1].copy()
+    elif hm == "all-query":
+        q, h = np.arange(na, dtype=np.int64), None
+    elif hm == "query-is-haystack-reversed" and len(q):
+        h = np.unique(q)[::-1].copy()
+    if len(q) * na > 400000:
+        q = q[: max(1, 400000 // na)]
+    ctx.observe("wide.haystack_mode", hm)
+    ctx.observe("wide.query_container", case["idx"])
+    ctx.observe("wide.haystack_container", case["hidx"])
+    return q.astype(np.int64), (None if h is None else h.astype(np.int64))
+
+
+def _nl_history(case, ctx, md, t, B, f, cutoff, periodic, periodic_flag, nl, rng, label):
+    _observe_wide(case, ctx, t)
+    ctx.observe("wide.frame_type", case["frame_type"])
+    kw = dict(periodic=_pflag_arg(periodic_flag, case))
+    base = [np.sort(np.asarray(a)) for a in nl]
+    if t.n_frames > 1:
+        g = int((f + 1 + rng.integers(0, t.n_frames - 1)) % t.n_frames)
+        md.compute_neighborlist(t, cutoff, frame=g, **kw)
+    again = md.compute_neighborlist(t, cutoff, frame=f, **kw)
+    same = len(again) == len(base) and all(np.array_equal(np.sort(np.asarray(a)), b) for a, b in zip(again, base))
+    ctx.check(same, "neighborlist.repeat", "neighborlist:second-call-on-the-same-frame-differs",
+              f"{label}: the list of frame {f} differs when it is computed again after another frame of the same trajectory")
+    if case["i"] % 3 == 0 and t.n_atoms > 1:
+        # the same object, frame f edited in place
+        mover = rng.choice(t.n_atoms, size=max(1, t.n_atoms // 4), replace=False)
+        if B is not None and rng.random() < 0.6:
+            t.xyz[f, mover] = (t.xyz[f, mover].astype(np.float64) + rng.integers(-2, 3, (len(mover), 3)).astype(np.float64) @ B[f]).astype(np.float32)
+            ctx.observe("wide.history_edit", "lattice-shift-inplace")
+        else:
+            t.xyz[f, mover] += (rng.normal(scale=cutoff / 2, size=(len(mover), 3))).astype(np.float32)
+            ctx.observe("wide.history_edit", "xyz-inplace")
+        nl2 = md.compute_neighborlist(t, cutoff, frame=f, **kw)
+        _judge_nl(ctx, md, t, f, B[f] if B is not None else None, cutoff, periodic, periodic_flag, nl2, rng, label + " after an in-place edit of the frame")
+
+
+def _run_nbt(case, ctx):
+    """compute_neighbors under different OpenMP team sizes: identical arrays (members AND order)"""
+    import mdtraj as md
+    t, B, cutoff, periodic, periodic_flag, rng = _build_wide(case)
+    na = t.n_atoms
+    q = np.sort(rng.choice(na, size=na // 2, replace=False)).astype(np.int64)
+    h = None if rng.random() < 0.4 else rng.permutation(na).astype(np.int64)
+    ctx.observe("entry", "compute_neighbors+thread-sweep")
+    ctx.observe("cell", case["cell"])
+    ctx.observe("wide.query_x_haystack", f"{len(q) * na} (> 65536)")
+    if periodic:
+        w = min(common.cell_widths(B[f]).min() for f in range(t.n_frames))
+        if cutoff > w / 2:
+            cutoff = float(w / 2 * 0.9)
+    base = md.compute_neighbors(t, cutoff, q, haystack_indices=h, periodic=periodic_flag)
+    label = f"compute_neighbors(periodic={periodic_flag}, {len(q)} query x {na} haystack atoms) [{case['cell']}]"
+    try:
+        for team in TEAMS:
+            _set_threads(team)
+            other = md.compute_neighbors(t, cutoff, q, haystack_indices=h, periodic=periodic_flag)
+            ctx.observe("omp-team", team)
+            same = len(other) == len(base) and all(np.array_equal(a, b) for a, b in zip(other, base))
+            ctx.check(same, "neighbors.threads", "neighbors:result-depends-on-thread-count",
+                      f"{label}: result with an OpenMP team of {team} differs from the one with {DEFAULT_TEAM}", team=team)
+    finally:
+        _set_threads(DEFAULT_TEAM)
+    # and the result itself is judged like any other compute_neighbors case (first frame only: cost)
+    f = 0
+    r = base[f].astype(np.int64)
+    H = np.arange(na, dtype=np.int64) if h is None else h
+    Bf = B[f] if B is not None else None
+    x = t.xyz[f].astype(np.float64)
+    band = _band(t.xyz[f])
+    hh, qq = np.meshgrid(H, q, indexing="ij")
+    valid = hh != qq
+    pi, pj = hh[valid], qq[valid]
+    d = _d64(x, pi, pj, Bf)
+    near = np.abs(d - cutoff) <= 4 * band
+    d32n = _d32(md, t, f, pi[near], pj[near], periodic) if near.any() else np.zeros(0)
+    amb = np.zeros(len(d), bool)
+    amb[near] = (np.abs(d[near] - cutoff) <= band) | (np.abs(d32n - cutoff) <= band) | ((d[near] < cutoff) != (d32n < cutoff))
+    inn = ~amb & (d < cutoff)
+    pos = np.searchsorted(np.sort(H), pi)
+    order = np.argsort(H)
+    def_in = np.zeros(len(H), bool)
+    unsure = np.zeros(len(H), bool)
+    def_in[order] = np.bincount(pos[inn], minlength=len(H)) > 0
+    unsure[order] = (np.bincount(pos[amb], minlength=len(H)) > 0)
+    unsure &= ~def_in
+    expected = H[def_in]
+    undec = set(H[unsure].tolist())
+    gotf = np.array([a for a in r.tolist() if a not in undec], dtype=np.int64)
+    miss, spur = np.setdiff1d(expected, gotf), np.setdiff1d(gotf, expected)
+    if len(miss) or len(spur):
+        ctx.violation("neighbors.members", f"neighbors:large-request:{'missing' if len(miss) else 'spurious'}:{'periodic' if periodic else 'plain'}",
+                      f"{label}: {len(miss)} atoms within the cutoff are not reported, {len(spur)} reported atoms are beyond it", frame=f)
+    else:
+        ctx.ok("neighbors.members", int((~unsure).sum()))
+        if np.array_equal(gotf, expected):
+            ctx.ok("neighbors.order")
+        else:
+            ctx.violation("neighbors.order", "neighbors:large-request:not-in-haystack-order", f"{label}: reported atoms are not in the order of the haystack", frame=f)
+
+
+_run_nb_original = _run_nb
+
+
+def _run_nb(case, ctx):  # noqa: F811
+    if case.get("w"):
+        ctx.observe("wide.hmode", case["hmode"])
+    _run_nb_original(case, ctx)
